@@ -31,11 +31,13 @@ bool enabled();
 void reset();
 void set_dir(const std::string &path, int policy);
 void set_execmem(bool allowed);
+void set_flaky(int kind, int period);   // every period-th call of `kind` fails (0 = off); counted across the whole run
 void begin_op(const std::vector<Fault> &faults);
 OpStats end_op();
 int open_fds();                // descriptors handed out and not yet closed
 int live_mappings();           // mappings handed out and not yet unmapped
 std::string open_fd_desc();
+uint64_t flaky_fired();
 
 }  // namespace fs
 }  // namespace sim
